@@ -190,8 +190,10 @@ def run_check(tier, seed):
         run.evaluations += 1
         desc = {"template": t}
         if not r.startswith("OK "):
-            if kind == "fmt":
+            if kind == "fmt" and b not in FMTS_PY and b not in FMTS_MODEL:
                 continue            # an unsupported specifier is an error, which is allowed
+            if kind == "fmt" and (b == "" or a > 8210298412799):
+                continue
             run.add_violation("oracle", {"stream": "function_contracts_on_implementation", "what": "function call fails: " + r[:40], "described": desc}, True)
             continue
         o = unhx(r.split(" ")[1])
@@ -222,8 +224,10 @@ def run_check(tier, seed):
                         bad = f"format_timestamp: UTC calendar formatting gives {want!r}"
                 elif "%s" == pyfmt and o != str(a):
                     bad = "format_timestamp %s"
-                elif pyfmt in ("%Z", "%z", "%:z") and o not in ("UTC", "+0000", "+00:00"):
+                elif pyfmt in ("%Z", "%z", "%:z") and o != {"%Z": "UTC", "%z": "+0000", "%:z": "+00:00"}[pyfmt]:
                     bad = "format_timestamp: zone must be UTC"
+                elif pyfmt == "%+" and d.year <= 9999 and o != d.strftime("%Y-%m-%dT%H:%M:%S+00:00"):
+                    bad = "format_timestamp: %+ must be the ISO 8601 UTC form"
             except (ValueError, OverflowError):
                 pass
         if bad:
